@@ -41,6 +41,16 @@ class R(object):
         self.recvs = list(recvs)
 
 
+class RExc(Exception):
+    """the same return value as R, but the object happens to be an exception instance: a value that is RETURNED (or
+    produced by a sub-computation and handed back at a yield) is a value whatever its type - it must never be raised"""
+
+    def __init__(self, t, recvs):
+        Exception.__init__(self, "a value, not a failure")
+        self.t = t
+        self.recvs = list(recvs)
+
+
 class Caught(object):
     __slots__ = ("vid",)
 
@@ -72,7 +82,7 @@ def enc(x):
         return V("opaque", 1)
     if isinstance(x, int):
         return V("c", x)
-    if isinstance(x, R):
+    if isinstance(x, (R, RExc)):
         return V("r", x.t, [enc(y) for y in x.recvs])
     if isinstance(x, Caught):
         return V("caught", x.vid)
@@ -363,7 +373,8 @@ class Run(object):
                             raise
                         recvs.append(Caught(vid_of(e)))
                 elif tk == "return":
-                    return R(t, recvs)
+                    # every third return value is an exception OBJECT (returned, not raised)
+                    return (RExc if (t + len(recvs)) % 3 == 0 else R)(t, recvs)
                 elif tk == "raise":
                     raise VErr(10000 + t * 100 + k)
                 else:
